@@ -291,7 +291,7 @@ def _instantiate_once(assertions: List[Any], max_instances: int = 400) -> Option
     return out
 
 
-def _solve_portfolio(assertions: List[Any], timeout_ms: int):
+def _solve_portfolio(assertions: List[Any], timeout_ms: int, prefer: Optional[str] = None):
     """Solver verdicts on quantified VCs are unstable (the same query flips between 0.3 s and a
     timeout depending on the solver's internal state), so a query is tried in fresh contexts under a
     few configurations, then by cvc5.  Any sat/unsat answer is definitive; all-unknown is unknown.
@@ -304,6 +304,26 @@ def _solve_portfolio(assertions: List[Any], timeout_ms: int):
     share = max(2000, timeout_ms // 3)
     reason = ''
     quantified = any(_has_quantifier(a) for a in assertions)
+    if prefer:
+        # hinted order (see solver_hint): the configuration that decided this obligation last time goes first
+        if prefer == 'cvc5' and assertions:
+            s0 = z3.Solver(ctx=assertions[0].ctx)
+            s0.add(*assertions)
+            r2 = _cvc5_check(s0.to_smt2().replace('(check-sat)', ''))
+            if r2 in ('sat', 'unsat'):
+                return (z3.sat if r2 == 'sat' else z3.unsat, 'cvc5', None, '')
+        for name, opts in configs:
+            if prefer == name:
+                ctx = z3.Context()
+                sp = z3.Solver(ctx=ctx)
+                sp.set('timeout', timeout_ms)
+                for k, v in opts.items():
+                    sp.set(k, v)
+                for a in assertions:
+                    sp.add(a.translate(ctx))
+                rp = sp.check()
+                if rp != z3.unknown:
+                    return (rp, name, sp, '')
     if _mentions_bitvectors(assertions):
         # wide bit-vector formulas: eager bit-blasting decides in milliseconds what the default
         # strategy needs tens of seconds for
@@ -351,6 +371,21 @@ def _solve_portfolio(assertions: List[Any], timeout_ms: int):
 
 
 CANDIDATE = 'instantiated(quantified hypotheses relaxed: candidate counter-model)'
+
+_HINTS: Optional[Dict[str, str]] = None
+
+
+def solver_hint(name: str) -> Optional[str]:
+    """which back end discharged this obligation on the last clean run (solver_hints.json, written by tools/relock.py).
+    ORDER ONLY: the hinted configuration is tried first, every other one afterwards exactly as without a hint - a hint
+    can make a run faster, never change a verdict."""
+    global _HINTS
+    if _HINTS is None:
+        try:
+            _HINTS = json.loads((VERIF / 'solver_hints.json').read_text())
+        except Exception:
+            _HINTS = {}
+    return _HINTS.get(stable_name(name))
 
 
 def _solve_with_instantiation(assertions: List[Any], timeout_ms: int):
@@ -470,7 +505,15 @@ def solve_serialized(d: Dict[str, Any]) -> OblResult:
             backend = 'z3-ground(quantified hyps not refuted)'
         st = 'covered' if r == z3.sat else ('uncovered' if r == z3.unsat else 'unknown')
         return OblResult(d['name'], d['kind'], st, backend, time.time() - t0, detail='' if st != 'unknown' else 'cover undecided', meta=d['meta'])
-    r, backend, s, reason = _solve_with_instantiation(asr, Z3_TIMEOUT_MS)
+    hint = solver_hint(d['name'])
+    r = z3.unknown
+    if hint and '+instantiation' not in hint and hint != CANDIDATE and not hint.startswith('z3(conjunct'):
+        # last time the plain portfolio decided it: skip the (slow, here useless) instantiation round first
+        r, backend, s, reason = _solve_portfolio(asr, Z3_TIMEOUT_MS, prefer=hint)
+        if r == z3.sat and any(_has_quantifier(a) for a in asr):
+            pass  # a real counter-model of the full query: definitive
+    if r == z3.unknown:
+        r, backend, s, reason = _solve_with_instantiation(asr, Z3_TIMEOUT_MS)
     failed_part = None
     if r == z3.unknown:
         # split a conjunctive goal: hyps /\ defs /\ not(part_i), one conjunct at a time
